@@ -41,6 +41,32 @@
 
 namespace boost { namespace gil {
 
+namespace detail {
+
+// View type of the row buffer for a native (non-converting) read: pixels of the
+// destination's channel type in the default channel order of its colour space.
+template <typename View, bool IsBitAligned>
+struct tiff_native_buffer_view
+{
+    using type = View;
+};
+
+template <typename View>
+struct tiff_native_buffer_view<View, false>
+{
+private:
+    using value_t = typename View::value_type;
+    using pixel_t = pixel
+        <
+            typename channel_type<value_t>::type,
+            layout<typename color_space_type<value_t>::type>
+        >;
+public:
+    using type = typename view_type_from_pixel<pixel_t, false>::type;
+};
+
+} // namespace detail
+
 #if BOOST_WORKAROUND(BOOST_MSVC, >= 1400)
 #pragma warning(push)
 #pragma warning(disable:4512) //assignment operator could not be generated
@@ -212,7 +238,16 @@ private:
              , std::true_type // is_read_only
              )
     {
-        read_data< detail::row_buffer_helper_view< View > >( v, 0 );
+        // The file holds the samples in the order of the colour space; the destination
+        // may order its channels differently (e.g. bgr8), so the row buffer must not
+        // borrow the destination's layout. Bit-aligned destinations keep their own type.
+        using buffer_view_t = typename detail::tiff_native_buffer_view
+            <
+                View,
+                is_bit_aligned<typename View::value_type>::value
+            >::type;
+
+        read_data< detail::row_buffer_helper_view< buffer_view_t > >( v, 0 );
     }
 
     template< typename View >
